@@ -37,6 +37,21 @@ def exec_case(case):
     g = dict(case["given"])
     kind = "volume" if g.get("C0") else ("polyline" if g.get("E0") else "surface")
     m = c09.build({"kind": kind, "P": g["P"], "F": g.get("F0", []), "C": g.get("C0", []), "E0": g.get("E0", [])})
+    hist = g.setdefault("hist", "")
+    if hist and kind == "surface":
+        # history: the persistent per-element attributes the operators may reuse exist already ...
+        tri = all(len(f) == 3 for f in m.faces)
+        M.attributes.face_area(m)
+        M.attributes.face_normals(m)
+        if tri:
+            M.attributes.corner_angles(m)
+            M.attributes.cotangent(m)
+        if hist == "moved":
+            # ... and the mesh is moved afterwards (integer stretch along x, then a translation): the operators must describe the CURRENT geometry
+            for i in range(len(m.vertices)):
+                p = m.vertices[i]
+                m.vertices[i] = M.geometry.Vec(3 * float(p[0]) + 1, float(p[1]) - 2, float(p[2]))
+            g["P"] = [[3 * p[0] + 1, p[1] - 2, p[2]] for p in g["P"]]
     g["F"] = [[int(v) for v in f] for f in m.faces] if hasattr(m, "faces") else []
     g["E"] = [[int(a), int(b)] for a, b in m.edges]
     g["C"] = [[int(v) for v in c] for c in m.cells] if hasattr(m, "cells") else []
@@ -171,9 +186,10 @@ def run(ctx):
             P2 = [None] * len(P)
             for old, new in enumerate(perm):
                 P2[new] = P[old]
-            cases.append({"id": "%s-%d-%d" % (name, len(cases), rep),
-                          "given": {"P": P2, "F0": [[perm[v] for v in f] for f in F], "C0": [[perm[v] for v in c] for c in C],
-                                    "E0": [[perm[v] for v in e_] for e_ in E0], "family": name}, "events": evs})
+            for hist in (["", "warm", "moved"] if (F and rep == 0) else [""]):
+                cases.append({"id": "%s-%d-%d%s" % (name, len(cases), rep, hist),
+                              "given": {"P": P2, "F0": [[perm[v] for v in f] for f in F], "C0": [[perm[v] for v in c] for c in C],
+                                        "E0": [[perm[v] for v in e_] for e_ in E0], "family": name, "hist": hist}, "events": evs})
     obs = ctx.execute("c08", "exec_case", cases, chunksize=1)
     ctx.judge("C08_Trace", "C08_Trace.cfg", obs, "operators-on-lattices", "c08", "exec_case", batch_events=30)
     ctx.exhaustive = False
